@@ -131,6 +131,7 @@ def run(ctx):
                                               "callees": "the parser routines they call"}[what], d), lexpr.fn(a).loc())
     r.floor("twin-pairs", n)
     token_map(ctx, lexpr)
+    nested_outcomes(ctx, lexpr)
     close_param(ctx, lexpr)
     dot_class(ctx, lexpr)
     from .. import tailmap
@@ -196,6 +197,86 @@ def token_map(ctx, lexpr):
         else:
             r.violation(P + "next_datum", "token-map:%s" % k,
                         "Token::%s becomes Value::%s in next_value but Value::%s in next_datum" % (k, a[k], b.get(k)))
+
+
+def nested_outcomes(ctx, lexpr):
+    """For the tokens that open a nested construct (list, vector, byte vector, quote shorthand): with the nested
+    parse answering "end of input" (Ok(None) from the recursive step) or succeeding, which error codes can each API
+    raise?  The two must raise the same ones (e.g. EofWhileParsingList after a dangling quote in both)."""
+    r = ctx.rule("R-NESTED-ERR", "next_value and next_datum raise the same error codes around each nested construct "
+                                 "(recursion limit, end of input after a quote shorthand, closing delimiter)")
+    tok = lexpr.adts.get("parse::Token")
+    if not tok:
+        r.anchor_missing("parse::Token")
+        return
+    RES, OPT = "std::result::Result", "std::option::Option"
+    rec = {P + "next_value", P + "next_datum", P + "expect_value", P + "expect_datum"}
+    sub = {P + "parse_list", P + "parse_list_meta", P + "parse_vector", P + "parse_vector_meta", P + "parse_byte_list"}
+    maps = {}
+    for fp in (P + "next_value", P + "next_datum"):
+        f = lexpr.fn(fp)
+        if f is None:
+            r.anchor_missing(fp)
+            return
+        m = {}
+        for v in tok["variants"]:
+            if v["name"] not in ("ListOpen", "VecOpen", "ByteVecOpen", "Quotation"):
+                continue
+            pay = [0x29 if fl["ty"] == "u8" else Opq("payload") for fl in v["fields"]]
+            tv = Adt("parse::Token", v["idx"], pay, v["name"])
+            for inner in ("eof", "ok"):
+                def hook(S, fn, bb, t, args, path, tv=tv, inner=inner, fp=fp):
+                    nm = F.callee_names(t)
+                    if fn.path == fp or fn.path.startswith(fp + "::{closure"):
+                        pass
+                    if P + "parse_whitespace" in nm:
+                        return ("value", Adt(RES, 0, [Adt(OPT, 1, [65])]))
+                    if P + "parse_token" in nm:
+                        return ("value", Adt(RES, 0, [tv]))
+                    if nm & rec:
+                        # the recursive step for the quoted datum
+                        if any(x.endswith(("expect_value", "expect_datum")) for x in nm):
+                            return ("value", Adt(RES, 0, [UNK]) if inner == "ok" else Adt(RES, 1, [Opq("inner-error")]))
+                        return ("value", Adt(RES, 0, [Adt(OPT, 1, [UNK]) if inner == "ok" else Adt(OPT, 0, [])]))
+                    if nm & sub:
+                        return ("value", Adt(RES, 0, [UNK]))
+                    if P + "end_seq" in nm:
+                        return ("fork", [Adt(RES, 0, [sim.Tup([])]), Adt(RES, 1, [Opq("end-error")])])
+                    if any(x.endswith("Datum::into_inner") for x in nm):
+                        return ("value", sim.Tup([UNK, UNK]))
+                    return None
+
+                S = sim.Sim([lexpr], hooks={"call": hook}, inline=lex.helper_inline(lexpr), max_depth=5, max_paths=6000)
+                outs = set()
+                try:
+                    for p in S.run(f):
+                        if p.end == "panic":
+                            outs.add("panic")
+                        if p.end != "return":
+                            continue
+                        codes = lex.error_codes(p, lexpr)
+                        rr = p.ret
+                        if codes:
+                            outs.add("err:" + "+".join(codes))
+                        elif isinstance(rr, Adt) and rr.adt.endswith("Result"):
+                            outs.add("ok" if rr.variant == 0 else "err:propagated")
+                        else:
+                            outs.add("?")
+                except sim.Limit:
+                    outs = {"inexact"}
+                m["%s, nested parse %s" % (v["name"], "succeeds" if inner == "ok" else "meets the end of input")] = outs
+        maps[fp] = m
+    a, b = maps[P + "next_value"], maps[P + "next_datum"]
+    r.floor("cases", len(a))
+    for k in sorted(a):
+        if a[k] == b.get(k) and "inexact" not in a[k] and "?" not in a[k]:
+            r.ok("%s: both APIs -> %s" % (k, sorted(a[k])))
+        elif "inexact" in a[k] | b.get(k, set()):
+            r.violation(P + "next_datum", "inexact:%s" % k, "path limit while evaluating %s" % k)
+        else:
+            r.violation(P + "next_datum", "nested-err:%s" % k.split(",")[0],
+                        "%s: next_value can end in %s but next_datum in %s: the two APIs report different errors for the "
+                        "same input" % (k, sorted(a[k]), sorted(b.get(k, set()))), lexpr.fn(P + "next_datum").loc())
 
 
 def close_param(ctx, lexpr, rule=None):
